@@ -34,7 +34,13 @@ func (e *Engine) newVC(k string, mode string) (*fnVC, error) {
 			P.errIface, _ = obj.Type().Underlying().(*types.Interface)
 		}
 	}
-	v := &fnVC{e: e, fn: fn, con: con, P: P, vals: map[ssa.Value]T{}, reach: map[*ssa.BasicBlock]T{}, memOut: map[*ssa.BasicBlock]map[string]T{}, cur: map[string]T{}, memSrt: map[string]string{}, oblCnt: map[string]int{}, tuples: map[ssa.Value][]T{}, usedContracts: map[string]bool{}, grounded: map[string]bool{}, closures: map[ssa.Value]*ssa.MakeClosure{}, rangeOf: map[*ssa.Range]ssa.Value{}}
+	uses := false
+	for _, cl := range append(append([]Clause{}, con.Requires...), con.Ensures...) {
+		if strings.Contains(cl.Text, "rvver(") {
+			uses = true
+		}
+	}
+	v := &fnVC{usesRV: uses, e: e, fn: fn, con: con, P: P, vals: map[ssa.Value]T{}, reach: map[*ssa.BasicBlock]T{}, memOut: map[*ssa.BasicBlock]map[string]T{}, cur: map[string]T{}, memSrt: map[string]string{}, oblCnt: map[string]int{}, tuples: map[ssa.Value][]T{}, usedContracts: map[string]bool{}, grounded: map[string]bool{}, closures: map[ssa.Value]*ssa.MakeClosure{}, rangeOf: map[*ssa.Range]ssa.Value{}}
 	return v, nil
 }
 
